@@ -2,6 +2,7 @@ import UpfVerif.Model.Xlate
 import UpfVerif.Spec.Rules
 import UpfVerif.Spec.Arrange
 import UpfVerif.Lemmas.Xlate
+import UpfVerif.Lemmas.Arrange
 /-
 C03 — QER, URR and BAR reach the kernel exactly as the SMF specified them.
 
@@ -482,6 +483,23 @@ theorem bar_bytes (link seid fl : Nat) (cs : List BarChild) (p : BarSpec) (h : A
     (hl : link < 2 ^ 32) (hs : seid < 2 ^ 64) (hsz : wfList (barReq link seid fl cs).attrs = true) :
     (decodeTree (encList (barReq link seid fl cs).attrs)).map readBar = some (expectBar link seid p) := by
   rw [decodeTree_encList _ hsz]; simp [(bar_exact link seid fl cs p h wf hl hs).2]
+
+/-! ### the run-time predicate is an instance of the theorems -/
+
+theorem qer_predicate (link seid fl : Nat) (cs : List QerChild) (p : QerSpec) (h : specQer cs = some p) (wf : p.WF)
+    (hl : link < 2 ^ 32) (hs : seid < 2 ^ 64) :
+    readQer (qerReq link seid fl cs).attrs = expectQer link seid p :=
+  readQer_attrs link seid fl cs p (specQer_arranges cs p h) wf hl hs
+
+theorem urr_predicate (link seid fl : Nat) (cs : List UrrChild) (p : UrrSpec) (h : specUrr cs = some p) (wf : p.WF)
+    (hl : link < 2 ^ 32) (hs : seid < 2 ^ 64) :
+    readUrr (urrReq link seid fl cs).attrs = expectUrr link seid p :=
+  readUrr_attrs link seid fl cs p (specUrr_arranges cs p h) wf hl hs
+
+theorem bar_predicate (link seid fl : Nat) (cs : List BarChild) (p : BarSpec) (h : specBar cs = some p) (wf : p.WF)
+    (hl : link < 2 ^ 32) (hs : seid < 2 ^ 64) :
+    readBar (barReq link seid fl cs).attrs = expectBar link seid p :=
+  (bar_exact link seid fl cs p (specBar_arranges cs p h) wf hl hs).2
 
 end UpfVerif.C03
 
